@@ -214,3 +214,86 @@ class Run:
               + ", ".join(f"{k}={v}" for k, v in cov.items()
                           if isinstance(v, (int, float, bool))))
         return 1 if self.violations else 0
+
+
+# --------------------------------------------------------------------------
+# crash-robust parallel map (generated code is executed in worker processes;
+# a kernel that reads out of bounds may kill its worker)
+
+def _one_in_child(func: Any, item: Any, conn: Any) -> None:
+    try:
+        conn.send(("ok", func([item])[0]))
+    except BaseException as ex:      # noqa: BLE001
+        conn.send(("exc", repr(ex)))
+    finally:
+        conn.close()
+
+
+def robust_map(func: Any, items: list, *, nproc: int = NCPU, chunk: int | None = None,
+               crashed: Any = None, timeout: float = 600) -> list:
+    """func maps a LIST of items to a list of results (same order).  Runs
+    chunks in a process pool; if a worker dies (segfault in generated code) or
+    a chunk exceeds *timeout*, the affected items are re-run one per process
+    and those that kill / hang their process get crashed(item, reason) as
+    result (default: {"id": item["id"], "crashed": reason})."""
+    import multiprocessing as mp
+    from concurrent.futures import ProcessPoolExecutor, TimeoutError as FTimeout
+    from concurrent.futures.process import BrokenProcessPool
+    if not items:
+        return []
+    if crashed is None:
+        def crashed(item: Any, reason: str) -> Any:
+            return {"id": item.get("id") if isinstance(item, dict) else None,
+                    "crashed": reason}
+    k = chunk or max(1, len(items) // (nproc * 4))
+    chunks = [items[i:i + k] for i in range(0, len(items), k)]
+    results: dict[int, list] = {}
+    redo: list[int] = []
+    try:
+        with ProcessPoolExecutor(max_workers=nproc) as ex:
+            futs = {i: ex.submit(func, c) for i, c in enumerate(chunks)}
+            for i, f in futs.items():
+                try:
+                    results[i] = f.result(timeout=timeout)
+                except (BrokenProcessPool, FTimeout):
+                    redo.append(i)
+                    for j, g in futs.items():
+                        if j not in results and j not in redo:
+                            try:
+                                results[j] = g.result(timeout=1)
+                            except Exception:      # noqa: BLE001
+                                redo.append(j)
+                    break
+            if redo:
+                for p in list(getattr(ex, "_processes", {}).values()):
+                    try:
+                        p.kill()
+                    except Exception:      # noqa: BLE001
+                        pass
+    except BrokenProcessPool:
+        redo = [i for i in range(len(chunks)) if i not in results]
+    for i in sorted(set(redo)):
+        out = []
+        for item in chunks[i]:
+            parent, child = mp.Pipe(duplex=False)
+            pr = mp.Process(target=_one_in_child, args=(func, item, child))
+            pr.start()
+            child.close()
+            res: Any = None
+            if parent.poll(timeout):
+                try:
+                    kind, val = parent.recv()
+                    res = val if kind == "ok" else crashed(item, "exception in isolated run: "
+                                                           + str(val)[:300])
+                except EOFError:
+                    res = None
+            pr.join(5)
+            if pr.is_alive():
+                pr.kill()
+                pr.join()
+                res = crashed(item, f"no result within {timeout}s (hung)")
+            elif res is None:
+                res = crashed(item, f"worker process died (exit code {pr.exitcode})")
+            out.append(res)
+        results[i] = out
+    return [r for i in range(len(chunks)) for r in results[i]]
